@@ -510,6 +510,8 @@ type enOp struct {
 	call, ret uint64
 	faulted   bool // a shard call of this operation was failed by the simulator
 	tombSeen  bool // (reads) a tombstone broadcast of the object was in flight when the read started
+	degSeen   bool // some shard was in a degraded (no-metabase) mode at some moment of the operation
+	prev      mode.Mode
 	flag2     bool // some shard was not read-write while the operation ran
 	seen      []string
 }
